@@ -1,10 +1,10 @@
 package rules
 
 import (
-	"go/types"
-	"go/constant"
 	"fmt"
+	"go/constant"
 	"go/token"
+	"go/types"
 	"sort"
 	"strings"
 
